@@ -181,7 +181,48 @@ func dischargeAll(obls []*Obligation, header string, workdir string, timeoutS in
 	}
 	close(ch)
 	wg.Wait()
+	// second chance: a query no solver decided within the limit is run again, few at a time and with a
+	// longer limit. A machine that is busy with other work makes a solver miss a wall-clock limit it
+	// normally meets with room to spare; an obligation must not fail for that reason.
+	var again []int
+	for i, j := range jobs {
+		if j.q.Result == "timeout" || j.q.Result == "unknown" {
+			again = append(again, i)
+		}
+	}
+	if len(again) == 0 || len(again) > retryMax {
+		return
+	}
+	retryT := timeoutS * 3
+	if retryT < 60 {
+		retryT = 60
+	}
+	ch2 := make(chan int)
+	var wg2 sync.WaitGroup
+	for w := 0; w < 2; w++ {
+		wg2.Add(1)
+		go func() {
+			defer wg2.Done()
+			for i := range ch2 {
+				j := jobs[i]
+				first := j.q.Time
+				j.q.Output, j.q.Time = "", 0
+				ans := solveQuery(workdir, i, header, j.q, retryT, all)
+				decide(j.q, ans)
+				j.q.Retried = true
+				j.q.Time += first
+			}
+		}()
+	}
+	for _, i := range again {
+		ch2 <- i
+	}
+	close(ch2)
+	wg2.Wait()
 }
+
+// retryMax: more undecided queries than this are not a busy machine but a change that broke things.
+const retryMax = 24
 
 func decide(q *Query, ans []answer) {
 	q.Result = "unknown"
